@@ -272,7 +272,11 @@ def peval(p, env):
         for a in m:
             if a not in env:
                 g = C.gates.get(a)
-                if g is None:
+                if g is None and a in C.subst:
+                    # an eliminated atom: its value is that of its solved form (whatever order the caller fills the model in)
+                    env[a] = 0  # (cycle guard; solved forms do not refer back)
+                    env[a] = peval(C.subst[a], env)
+                elif g is None:
                     env[a] = 0  # unconstrained input defaults to 0
                 elif g[0] == "arith":
                     ar, i = g[1], g[2]
